@@ -61,10 +61,10 @@ static const uint8_t Rcon[11] = {
 
 static uint32_t sub_word(uint32_t A)
 {
-	return	S[(A >> 24) & 0xff] << 24 |
-		S[(A >> 16) & 0xff] << 16 |
-		S[(A >>  8) & 0xff] <<  8 |
-		S[A & 0xff];
+	return	(uint32_t)S[(A >> 24) & 0xff] << 24 |
+		(uint32_t)S[(A >> 16) & 0xff] << 16 |
+		(uint32_t)S[(A >>  8) & 0xff] <<  8 |
+		(uint32_t)S[A & 0xff];
 }
 
 /* (a0,a1,a2,a3) => (a1,a2,a3,a0) */
